@@ -63,6 +63,27 @@ for b in range(1, 256):
         except Exception as e:
             got = repr(e)
         if got != x: bad.append([x.hex(), 'decompress_code disagrees'])
+# hand-made well-formed streams (not produced by picotool's compressor): back-references of every length 3..17 at every offset 1..6, so
+# that copies overlap themselves (offset < length); chains of two references
+def lit(c): return bytes([TABLE.index(c)]) if c in TABLE[1:] else bytes([0, c])
+def ref(off, ln): return bytes([(off >> 4) + 60, ((ln - 2) << 4) | (off & 15)])
+for off in range(1, 7):
+    for ln in range(3, 18):
+        for head in (b'abcdef'[:max(off, 1)], b'xyzxyz'[:off] if off <= 6 else b'', b'\x80\x81ab\n '[:off]):
+            if len(head) < off: continue
+            for tail in (b'', ref(2, 3) if off + ln >= 2 else b'', ref(min(off + ln, 7), 5)):
+                stream = b''.join(lit(c) for c in head) + ref(off, ln) + tail
+                n += 1
+                try:
+                    want = ref_decode(stream)
+                except AssertionError:
+                    continue
+                area = bytes([58, 99, 58, 0, len(want) >> 8, len(want) & 255, 0, 0]) + stream + bytes(4)
+                try:
+                    got = compress.decompress_code(area)[1]
+                except Exception as e:
+                    got = repr(e)
+                if got != want: bad.append([stream.hex(), 'decompress_code disagrees with the reference decoder on a hand-made well-formed stream (offset %d, length %d)' % (off, ln)])
 # whole code areas through the real writer / reader pair: texts that do and do not mention _update60 (the compatibility suffix),
 # every kind of ending; an independent decoder reads the header length and the stream
 m = 0
